@@ -26,6 +26,9 @@ type c04Op struct {
 	// second connection with the publisher's client id takes the session over at once, retransmits the PUBLISH
 	// (DUP=1) and completes the flow - while the first connection's packets may still be in the broker's hands
 	K int `json:"k,omitempty"`
+	// pubrel (v5): the PUBREL carries reason code 0x92 (Packet Identifier not found) - what a publisher sends when it has
+	// lost its own state for the identifier. The flow is over all the same: PUBCOMP, identifier free again.
+	NotFound bool `json:"code_0x92,omitempty"`
 }
 
 type c04Scen struct {
@@ -50,7 +53,7 @@ func genC04(backend string) func(t *rapid.T) c04Scen {
 			case k <= 5:
 				s.Ops = append(s.Ops, c04Op{Op: "retransmit", ID: id})
 			case k <= 8:
-				s.Ops = append(s.Ops, c04Op{Op: "pubrel", ID: id})
+				s.Ops = append(s.Ops, c04Op{Op: "pubrel", ID: id, NotFound: s.V == 5 && rapid.IntRange(0, 3).Draw(t, "code92") == 0})
 			case k == 9:
 				s.Ops = append(s.Ops, c04Op{Op: "pub1", ID: uint16(10 + rapid.IntRange(0, 2).Draw(t, "id1"))})
 			case k == 10 && rapid.Bool().Draw(t, "tk"):
@@ -180,7 +183,12 @@ func runC04(s c04Scen, c *ev.Case) *ev.Violation {
 				return ev.Violf("C04.pubrec-code", "PUBREC id %d carries failure code %#x", op.ID, rec.ReasonCode).With("dup", dup)
 			}
 		case "pubrel":
-			if err := p.Send(&mw.Packet{Type: mw.PUBREL, PacketID: op.ID}); err != nil {
+			rel := &mw.Packet{Type: mw.PUBREL, PacketID: op.ID}
+			if op.NotFound && s.V == 5 {
+				rel.ReasonCode = 0x92
+				c.Label("pubrel_with_reason_code_0x92")
+			}
+			if err := p.Send(rel); err != nil {
 				return ev.Violf("C04.send", "send failed: %v", err)
 			}
 			comp, err := p.WaitType(mw.PUBCOMP, fixture.DefaultWait)
